@@ -177,7 +177,7 @@ where
     match lexer.peek() {
         Some((Ok(token), _)) => {
             if token == expected {
-                lexer.next();
+                parse_token(lexer, expected)?;
                 Ok(Some(cb(lexer)?))
             } else {
                 Ok(None)
